@@ -428,7 +428,14 @@ class ColorValue(Value):
 
                     # save components
                     if type_ == Value.NUMBER:
-                        raw.append(item.value.value)
+                        number = item.value.value
+                        if HSL and not raw:
+                            # the hue is an angle
+                            number = number % 360
+                        else:
+                            # (as below: far out of range)
+                            number = min(max(number, -(10**9)), 10**9)
+                        raw.append(number)
                         check += 'N'
                     elif type_ == Value.PERCENTAGE:
                         # (a literal too long for a float is far out of range)
